@@ -276,8 +276,14 @@ var validateDepths = []int{1, 10, 100, 1000, 4990, 5000, 20000}
 func directValidate(r *prng, v int) directOut {
 	depth := rec.Pick(r, validateDepths)
 	kind := rec.Pick(r, []string{"union", "intersection", "difference", "mixed"})
+	if tierQuick && depth > 5000 {
+		depth = 5000
+	}
 	if v >= 0 {
 		depth = validateDepths[v%len(validateDepths)]
+		if tierQuick && depth > 5000 {
+			depth = 4000
+		}
 		kind = []string{"union", "intersection", "difference", "mixed"}[(v/len(validateDepths))%4]
 	}
 	rw := usersetDepth(kind, depth, this())
@@ -298,6 +304,9 @@ func directValidate(r *prng, v int) directOut {
 	}
 	return directOut{values: []rec.V{rec.I(6), rec.I(depth), rec.I(md), rec.I(size), rec.I(class)}, panicked: p, panicMsg: msg}
 }
+
+// set by the child from VERIF_C19_TIER
+var tierQuick = true
 
 func directGenerators() []*generator {
 	mk := func(name string, variants, weight int, f func(r *prng, v int) directOut) *generator {
